@@ -1172,7 +1172,7 @@ extracted from the C++ on every run) -/
 theorem C01_src_stack_le_limit : maxSrcStack ≤ (limit : Int) := by decide
 
 /-- **`analyze_stack` marks the unused macro tracks after the loop over all tracks** (the shape of the
-repair of D28, repository fix 6fc8560).  A normal return `m` of `analyze_stack` is the map `m0` the
+repair of D28, repository fix f7fbaab).  A normal return `m` of `analyze_stack` is the map `m0` the
 first loop leaves — every track analysed, each unused root (a track with id > 15 whose `base_usage`
 was still 0 when the loop reached it) collected in `unused` — with `base_usage = 100` on exactly the
 collected ids: every other analyser, and the `parsing` flag, `max_usage` and stack list of the
@@ -1198,7 +1198,7 @@ def StackSoundAt (song : Song) (m : SAMap) (bm : Match) : Prop :=
 
 /-- **Every loop fold the modelled optimiser performs keeps every track within the depth limit** —
 the statement without side condition on the stack analysis.  NOT proved.  It was false of the code
-before repository fix 6fc8560 (finding D28: the lists `analyze_stack` computed underestimated the depth
+before repository fix f7fbaab (finding D28: the lists `analyze_stack` computed underestimated the depth
 of a track reached only through a chain of unused macro tracks with descending ids; `Ex2.D28_witness`
 keeps the old answer as a witness, `Ex2.D28_regression` is the repaired analysis on the same song); no
 counterexample is known for the repaired code (family `d28-chain` of checks/c01.py).
@@ -1609,7 +1609,7 @@ example : okv ((findBestMatch songN mN 15000).map fun r => (r.1.tracks == songN.
 /-! ### the hypothesis `StackSoundAt` is about the map, not a formality (finding D28, repaired)
 
 Ten unused macro tracks `*20 … *29`, each calling the one below it, `*20` calling `*30`; `*30` holds a
-phrase three times.  BEFORE repository fix 6fc8560 `analyze_stack` analysed `*20` as a root (base usage 0:
+phrase three times.  BEFORE repository fix f7fbaab `analyze_stack` analysed `*20` as a root (base usage 0:
 `*30` gets base usage 1) and marked it unused right away (`base_usage = 100`); the callers `*21 … *29`,
 analysed later, found `100` there and did not analyse `*20` again, so `*30` kept base usage 1 although
 the validator reaches it through `*29 → … → *20 → *30` with all ten frames in use.  The fold of `*30`
